@@ -82,6 +82,27 @@ impl SharedSink {
     pub fn bytes(&self) -> Vec<u8> {
         self.0.borrow().data.clone()
     }
+    /// first repo call site whose write was accepted only partially and whose remainder was not
+    /// offered again by the next write call (needs capture_sites)
+    pub fn loss_site(&self) -> String {
+        let s = self.0.borrow();
+        let writes: Vec<&CallRec> = s.calls.iter().filter(|c| c.write).collect();
+        for (i, c) in writes.iter().enumerate() {
+            if c.err.is_none() && c.accepted < c.offered {
+                let rem = c.offered - c.accepted;
+                let resent = writes.get(i + 1).map(|n| n.offered == rem && n.site == c.site).unwrap_or(false);
+                if !resent {
+                    return c.site.clone().unwrap_or_else(|| "?".into());
+                }
+            }
+        }
+        for c in s.calls.iter() {
+            if c.err.is_some() {
+                return format!("error-swallowed-after:{}", c.site.clone().unwrap_or_else(|| "?".into()));
+            }
+        }
+        "?".into()
+    }
     pub fn n_calls(&self) -> (usize, usize) {
         let s = self.0.borrow();
         (s.n_write, s.n_flush)
